@@ -19,16 +19,16 @@ Proof. exact route_one. Qed.
 Print Assumptions C06_exactly_one.
 
 (* the code's table agrees with the README on every one of the 256 type codes: unconditional error
-   types, conditional error types, message-queue types (MSG_VENDOR excepted), the five startup types,
+   types, conditional error types, message-queue types, the five startup types,
    and unknown codes go to the message queue *)
-Theorem C06_readme_table_except_vendor : forall ty, ty < 256 -> readme_agrees_at ty = true.
+Theorem C06_readme_table : forall ty, ty < 256 -> readme_agrees_at ty = true.
 Proof. exact readme_agrees. Qed.
-Print Assumptions C06_readme_table_except_vendor.
+Print Assumptions C06_readme_table.
 
-(* REFUTED for MSG_VENDOR (known finding dispatch.MSG_VENDOR): the README lists it under
-   "Message queue" but the dispatcher consumes it in state tracking *)
-Theorem C06_readme_vendor_refuted : mem MSG_VENDOR readme_msgq = true /\ dispatch_class MSG_VENDOR = KConsumed.
-Proof. exact vendor_refuted. Qed.
+(* MSG_VENDOR (once listed under "Message queue" although the dispatcher consumes it: repaired in the README, /repo cbb7961) *)
+Theorem C06_vendor_consumed : mem MSG_VENDOR readme_msgq = false /\ dispatch_class MSG_VENDOR = KConsumed.
+Proof. exact vendor_consumed. Qed.
+Print Assumptions C06_vendor_consumed.
 
 (* a payload is valid for its type when it has at least the type's minimum number of data bytes (generated from
    bidib_min_data_length); a valid payload is never dropped, in either mode, so it has one of the four destinations of the
